@@ -207,6 +207,37 @@ def check_modes(rng, X, desc):
                             f"{dm:.3g} sd and whose scale matrix differs by {dC:.3g} (relative) from the squeezed image; nu {n1!r} vs {n2!r} on {desc}"))
                 break
     desc["squeezed"] = nsq
+    # the CONFIGURED fallback reaches the kernel on every path: ordinary labels, empty / singleton labels, and small labels whose
+    # weight sits on one particle (their weighted resample collapses and all particles are used instead)
+    fb = float(rng.choice([2.5, 7.77, 40.0]))
+    lab3 = np.zeros(n, int)
+    k_small = min(n - 1, d + 1 + int(rng.integers(0, 3)))
+    small = rng.choice(n, size=k_small, replace=False)
+    lab3[small] = 1
+    w3 = rng.dirichlet(np.ones(n))
+    w3[small] *= 1e-9
+    w3[small[0]] = 0.02                       # one particle carries all but 1e-7 of the small label's weight
+    w3 /= w3.sum()
+    calls3 = [("from_global(dof_fallback)", lambda: ModeStatistics.from_global(U, w, dof_fallback=fb)),
+              ("from_particles(dof_fallback)", lambda: ModeStatistics.from_particles(U, w, labels, dof_fallback=fb))]
+    if has_n_modes:
+        calls3 += [("from_particles(n_modes, empty labels, dof_fallback)", lambda: ModeStatistics.from_particles(U, w, lab2, dof_fallback=fb, n_modes=6)),
+                   ("from_particles(n_modes, one-particle-dominated small label, dof_fallback)", lambda: ModeStatistics.from_particles(U, w3, lab3, dof_fallback=fb, n_modes=2))]
+    for nm, f in calls3:
+        try:
+            with contextlib.redirect_stdout(io.StringIO()), np.errstate(all="ignore"):
+                ms = f()
+        except Exception as e:
+            bad.append((f"modes-exception-{nm}", f"{nm} raised {type(e).__name__}: {e} on {desc}"))
+            continue
+        dof = np.asarray(ms.degrees_of_freedom, float)
+        # a mode carries either the configured fallback or a finite fitted value; the library's built-in default (1e6) can only
+        # appear if it was configured
+        wrong = [float(v) for v in dof if not np.isfinite(v) or v <= 0 or (v == 1e6 and fb != 1e6)]
+        if wrong:
+            bad.append(("modes-fallback-not-configured", f"{nm} with dof_fallback={fb}: degrees of freedom {dof.tolist()} (a non-finite estimate must be replaced by the "
+                        f"configured fallback, not by a built-in default)"))
+        desc["fallback_calls"] = desc.get("fallback_calls", 0) + 1
     return bad
 
 
@@ -286,6 +317,7 @@ def run():
             ck.event("fit_mvstud well-posedness + 3 equivariance pairs")
             ck.event("ModeStatistics.from_global/from_particles checked", 3)
             ck.event("mode fits on particles squeezed into a tiny part of the cube compared with the squeezed image", desc.get("squeezed", 0))
+            ck.event("mode-statistics calls with a configured dof fallback (all paths incl. collapsed small labels)", desc.get("fallback_calls", 0))
             if nu is not None and np.isfinite(nu):
                 finite_nu += 1
             for key, what in bad:
